@@ -46,7 +46,7 @@ def preload():
 
 
 def cases(tier, seed):
-    na, nb = (320, 2400) if tier == "quick" else (6000, 50000)
+    na, nb = (800, 4000) if tier == "quick" else (10000, 60000)
     out = []
     for i in range(na):
         out.append({"part": "A", "seed": seed * 93179 + i * 3 + 1, "kind": KINDS_A[i % len(KINDS_A)],
